@@ -37,7 +37,7 @@ def _invalidates(node, obj: str) -> bool:
 def run(ctx) -> None:
     ctx.rule("a.vector-coherence", "every store to a Vector's _underlying outside its constructor is followed on every path "
                                    "to exit by an invalidation of the memo on the same object, or the function swaps storage "
-                                   "without invalidating and EVERY call site is followed by an invalidation / has a FRESH receiver", 3)
+                                   "without invalidating and EVERY call site is followed by an invalidation / has a FRESH receiver", 2)
     ctx.rule("b.container", "the fingerprint() a Table resolves to (MRO) neither reads nor writes a memo: columns are live "
                             "views that can be written without the table being told", 1)
     ctx.rule("c.content-only", "the value folded by _compute_fingerprint_full/_hash_element depends on the elements of "
